@@ -3,6 +3,7 @@ package h
 import (
 	"github.com/cinar/indicator/v2/momentum"
 	"github.com/cinar/indicator/v2/trend"
+	"github.com/cinar/indicator/v2/volatility"
 	"github.com/cinar/indicator/v2/volume"
 	"verif/harness/vrt"
 )
@@ -114,5 +115,34 @@ func init() {
 		},
 		Deg: [][2]int{{0, 0}},
 		Lo:  []float64{0}, Hi: []float64{1}, HasRange: []bool{true},
+	})
+
+	// KeltnerChannel with ATR period cfg[0] and EMA period cfg[1] (exported fields Atr, Ema).
+	//   Middle = EMA(cfg[1], closings); Upper/Lower = Middle +- 2 * ATR(cfg[0], highs, lows, closings)
+	reg(&Ind{
+		Name: "KeltnerChannel2", In: "hlc", NOut: 3,
+		Make: func(cfg []int) any {
+			k := volatility.NewKeltnerChannelWithPeriod[float64](cfg[0])
+			k.Ema = trend.NewEmaWithPeriod[float64](cfg[1])
+			return k
+		},
+		Idle: func(inst any, cfg []int) int { return inst.(*volatility.KeltnerChannel[float64]).IdlePeriod() },
+		Run: func(inst any, in []<-chan float64) []<-chan float64 {
+			u, m, l := inst.(*volatility.KeltnerChannel[float64]).Compute(in[0], in[1], in[2])
+			return []<-chan float64{u, m, l}
+		},
+		Ref: func(cfg []int, in [][]float64, o, i int) float64 {
+			h, l, c := in[0], in[1], in[2]
+			mid := rEMA(c, cfg[1])[i]
+			switch o {
+			case 0:
+				return mid + 2*voATR(h, l, c, cfg[0], i)
+			case 2:
+				return mid - 2*voATR(h, l, c, cfg[0], i)
+			}
+			return mid
+		},
+		Deg:     [][2]int{{1, 0}, {1, 0}, {1, 0}},
+		Ordered: true,
 	})
 }
